@@ -141,3 +141,43 @@ pub fn seed_for(master: u64, prop: &str, worker: u64, i: u64) -> u64 {
     h = mix(h, i);
     h
 }
+
+/// Where a process abort would be attributed if it happened now (read by the supervising driver
+/// when a worker dies): written before phases in which nun-db may abort the process (e.g. an
+/// absurd allocation while loading corrupted files), cleared afterwards.
+pub fn set_abort_context(ctx: &str) {
+    use std::os::unix::fs::FileExt;
+    thread_local! {
+        static F: std::cell::RefCell<Option<std::fs::File>> = std::cell::RefCell::new(None);
+    }
+    let path = match std::env::var("NUNSIM_ABORT_CTX_FILE") {
+        Ok(p) => p,
+        Err(_) => return,
+    };
+    F.with(|f| {
+        let mut f = f.borrow_mut();
+        if f.is_none() {
+            *f = std::fs::OpenOptions::new().create(true).write(true).open(&path).ok();
+        }
+        if let Some(file) = f.as_ref() {
+            let b = ctx.as_bytes();
+            let n = b.len().min(200);
+            let mut buf = vec![0u8; 204];
+            buf[..4].copy_from_slice(&(n as u32).to_le_bytes());
+            buf[4..4 + n].copy_from_slice(&b[..n]);
+            let _ = file.write_at(&buf, 0);
+        }
+    });
+}
+
+pub fn read_abort_context(path: &str) -> Option<String> {
+    let b = std::fs::read(path).ok()?;
+    if b.len() < 4 {
+        return None;
+    }
+    let n = u32::from_le_bytes([b[0], b[1], b[2], b[3]]) as usize;
+    if n == 0 || b.len() < 4 + n {
+        return None;
+    }
+    Some(String::from_utf8_lossy(&b[4..4 + n]).to_string())
+}
